@@ -33,4 +33,20 @@ DEFS = {
     # p is one of the model's pairs
     'is_model_pair': (['m', 'p'], "exists(i, 0, len(m.pairs), exists(c, 0, len(m.pairs[i]), m.pairs[i][c] == p))"),
     'rl': (['p'], "ite(has(p, 'rank_lecturer'), p.rank_lecturer, 0)"),
+
+    # ---- loads and "worst assignee" over an assignment list L (entry None = unassigned)   [parametric: see pyvc/engine.py]
+    'loadP': (['L', 'j'], 'Count(q, len(L), L[q] != None and L[q].project_index == j)', 'parametric'),
+    'loadL': (['L', 'k'], 'Count(q, len(L), L[q] != None and L[q].lecturer_index == k)', 'parametric'),
+    'someone_at_P': (['L', 'j'], 'exists(q, 0, len(L), L[q] != None and L[q].project_index == j)'),
+    'someone_at_L': (['L', 'k'], 'exists(q, 0, len(L), L[q] != None and L[q].lecturer_index == k)'),
+    'worse_at_P': (['L', 'j', 'r'], 'exists(q, 0, len(L), L[q] != None and L[q].project_index == j and L[q].rank_lecturer > r)'),
+    'worse_at_L': (['L', 'k', 'r'], 'exists(q, 0, len(L), L[q] != None and L[q].lecturer_index == k and L[q].rank_lecturer > r)'),
+    # SPA-STL blocking pair (property C05/C06): p = an acceptable pair of student i, a = that student's assignment (or None)
+    'blocking': (['m', 'L', 'p', 'a'],
+        "(a == None or p.rank_student < a.rank_student) and ("
+        "(loadP(L, p.project_index) < m.proj_upper_quotas[p.project_index] and loadL(L, p.lecturer_index) < m.lec_upper_quotas[p.lecturer_index])"
+        " or (loadP(L, p.project_index) < m.proj_upper_quotas[p.project_index] and loadL(L, p.lecturer_index) >= m.lec_upper_quotas[p.lecturer_index]"
+        "     and ((a != None and a.lecturer_index == p.lecturer_index) or worse_at_L(L, p.lecturer_index, p.rank_lecturer)))"
+        " or (loadP(L, p.project_index) >= m.proj_upper_quotas[p.project_index] and worse_at_P(L, p.project_index, p.rank_lecturer)))"),
+    'two_sided': (['m'], "forall(i, 0, len(m.pairs), forall(c, 0, len(m.pairs[i]), has(m.pairs[i][c], 'rank_lecturer')))"),
 }
